@@ -171,6 +171,9 @@ def shards(tier, seed):
     for family in CALL_FAMILIES:
         out.append({'part': 'calls', 'family': family})
     out.append({'part': 'bids_trees'})
+    out.append({'part': 'errors'})
+    for ds in FMRIPREP_DATASETS:
+        out.append({'part': 'fmriprep', 'dataset': ds})
     for lay in SEQ_LAYOUTS:
         n_files = len(_seq_files(lay))
         for op in (SEQ_OPS if (thorough or lay != 'numeric') else ['all']):
@@ -210,7 +213,7 @@ def shards(tier, seed):
                 out.append({'part': 'spm', 'total': total, 'runs': runs})
     if not thorough:
         # interleave the parts so that the slow ones (mne) start early
-        out.sort(key=lambda s: {'mne': 0, 'calls': 0, 'meadows': 1, 'bids': 2, 'bids_seq': 2, 'bids_trees': 2, 'design': 3, 'spm': 4}[s['part']])
+        out.sort(key=lambda s: {'mne': 0, 'calls': 0, 'meadows': 1, 'bids': 2, 'bids_seq': 2, 'bids_trees': 2, 'fmriprep': -1, 'errors': -1, 'design': 3, 'spm': 4}[s['part']])
     return out
 
 
@@ -229,6 +232,14 @@ def run_shard(shard, ctx):
             for i in range(len(menu)):
                 for j in range(len(menu)):
                     run_case({'part': 'calls', 'family': shard['family'], 'pair': [i, j]}, ctx, root)
+    elif part == 'errors':
+        with _scratch() as root:
+            for kind in ERROR_KINDS:
+                run_case({'part': 'errors', 'kind': kind}, ctx, root)
+    elif part == 'fmriprep':
+        with _scratch() as root:
+            for case in _fmriprep_cases(shard['dataset']):
+                run_case(case, ctx, root)
     elif part == 'bids_trees':
         with _scratch() as root:
             for lay in (SEQ_LAYOUTS if ctx.tier == 'thorough' else SEQ_LAYOUTS[:2]):
@@ -287,6 +298,9 @@ def run_shard(shard, ctx):
                         for route in ('spm_filter', 'get_residuals'):
                             run_case({'part': 'spm', 'nscans': list(nscans), 'ncols': list(ncols),
                                       'n_voxels': nvox, 'fill': fill, 'route': route}, ctx)
+                if set(ncols) == {1}:
+                    run_case({'part': 'spm', 'nscans': list(nscans), 'ncols': list(ncols), 'n_voxels': 2,
+                              'fill': 0, 'route': 'get_betas'}, ctx)
     else:
         raise ValueError(part)
 
@@ -311,6 +325,12 @@ def _run_case(case, ctx, root=None):
     elif part == 'bids_trees':
         with _scratch(root) as d:
             _bids_trees_case(case, ctx, d)
+    elif part == 'fmriprep':
+        with _scratch(root) as d:
+            _fmriprep_case(case, ctx, d)
+    elif part == 'errors':
+        with _scratch(root) as d:
+            _errors_case(case, ctx, d)
     elif part == 'calls':
         with _scratch(root) as d:
             _calls_case(case, ctx, d)
@@ -635,6 +655,391 @@ def _bids_trees_case(case, ctx, root):
                 if str(got) != t + ':' + want:
                     ctx.fail(sigp + '|wrong-tree-or-file', sub,
                              'layout over tree %s answered %r for %s, expected %r' % (t, got, relpath, t + ':' + want))
+
+
+# ------------------------------------------- a small fmriprep dataset on disk (mock nibabel)
+FMRIPREP_DATASETS = {'ses_space': dict(ses='02', space='MNI152NLin2009cAsym'), 'plain': dict(ses=None, space=None)}
+FP_DESCS = ['preproc', 'pre', 'brain', 'confounds', 'aparcaseg', 'absent']
+FP_TASKS = [None, ['rest'], ['rest2'], ['rest', 'rest2'], ['rest2', 'rest'], ['nothere']]
+FP_CONFOUNDS = ['global_signal', 'csf', 'white_matter', 'trans_x', 'trans_y', 'trans_z', 'rot_x', 'rot_y', 'rot_z']
+VOL_SHAPE, N_T = (2, 2, 1), 3
+_FP_READY = {}
+
+
+class _ArrayImage:
+    def __init__(self, arr):
+        self._arr = arr
+        self.shape = arr.shape
+
+    def get_fdata(self):
+        return np.array(self._arr, dtype=float)
+
+
+class _DataNibabel:
+    """mock nibabel whose load(path) gives the array the harness registered for that path (every
+    file has its own values, so an answer tells WHICH file was read); unknown paths give -1"""
+
+    def __init__(self, registry):
+        self.registry = registry
+        self.loaded = []
+
+    def load(self, path):
+        self.loaded.append(path)
+        arr = self.registry.get(os.path.normpath(path))
+        return _ArrayImage(arr if arr is not None else -np.ones(VOL_SHAPE + (N_T,)))
+
+
+def _fmriprep_entities(name):
+    """entity dicts of every file of the dataset"""
+    extra = FMRIPREP_DATASETS[name]
+    out = []
+    for sub in ('01', '02'):
+        for task in ('rest', 'rest2'):
+            present = ['task', 'run'] + [k for k in ('ses', 'space') if extra[k]]
+            vals = dict(sub=sub, task=task, run='1', ses=extra['ses'], space=extra['space'])
+            for desc in ('preproc', 'pre'):
+                bold = ref.bids_entities(present + ['desc'], dict(vals, desc=desc), 'bold', 'nii.gz', 'func', 'fmriprep')
+                out += [bold, ref.with_changes(bold, {'ext': 'json'})]
+            base = ref.bids_entities(present + ['desc'], dict(vals, desc='preproc'), 'bold', 'nii.gz', 'func', 'fmriprep')
+            out.append(ref.with_changes(base, ref.lookup_changes('mri_sibling', 'brain', 'mask')))
+            out.append(ref.with_changes(base, ref.lookup_changes('mri_sibling', 'aparcaseg', 'dseg')))
+            out.append(ref.with_changes(base, ref.lookup_changes('table_sibling', 'confounds', 'timeseries')))
+            out.append(ref.with_changes(base, ref.lookup_changes('events')))
+    # the same recording in another pipeline: never to be found under 'fmriprep'
+    out.append(ref.bids_entities(['task', 'run', 'desc'], dict(sub='01', task='rest', run='1', desc='preproc'),
+                                 'bold', 'nii.gz', 'func', 'otherpipe'))
+    return out
+
+
+def _fmriprep_build(root, name):
+    """write the dataset below root (once per scratch directory); returns (entities, registry)"""
+    key = (root, name)
+    if key in _FP_READY:
+        return _FP_READY[key]
+    base = os.path.join(root, 'fp_' + name)
+    ents = _fmriprep_entities(name)
+    registry = {}
+    n_vox = int(np.prod(VOL_SHAPE))
+    for k, ent in enumerate(ents):
+        rel = ref.bids_relpath(ent)
+        path = os.path.normpath(os.path.join(base, rel))
+        os.makedirs(os.path.dirname(path), exist_ok=True)
+        if ent['ext'] == 'json':
+            with open(path, 'w') as fh:
+                fh.write('{"marker": "%s", "RepetitionTime": %d}' % (rel, k))
+        elif ent['suffix'] == 'events':
+            with open(path, 'w') as fh:
+                fh.write('onset\tduration\ttrial_type\tmarker\n0.0\t1.0\ta\t%s\n2.5\t1.0\tb\t%s\n' % (rel, rel))
+        elif ent['suffix'] == 'timeseries':
+            cols = FP_CONFOUNDS[::-1] + ['extra', 'trans_x_derivative1']
+            with open(path, 'w') as fh:
+                fh.write('\t'.join(cols) + '\n')
+                for r in range(N_T):
+                    vals = ['%r' % (100.0 * k + FP_CONFOUNDS.index(c) + 0.001 * r) if c in FP_CONFOUNDS else
+                            ('n/a' if (c != 'extra' and r == 0) else '%r' % (-1.0 - r)) for c in cols]
+                    fh.write('\t'.join(vals) + '\n')
+        else:
+            open(path, 'w').close()
+            if ent['suffix'] == 'bold':
+                arr = np.zeros(VOL_SHAPE + (N_T,))
+                for v, idx in enumerate(np.ndindex(*VOL_SHAPE)):
+                    for t in range(N_T):
+                        arr[idx + (t,)] = 1000 * k + 10 * v + t
+            elif ent['suffix'] == 'mask':
+                bits = [((k + 5) >> i) & 1 for i in range(n_vox)]
+                if sum(bits) in (0, n_vox):
+                    bits = [1, 0, 1, 0][:n_vox]
+                arr = np.array(bits, dtype=float).reshape(VOL_SHAPE)
+            else:                               # dseg: parcel numbers 1..3
+                arr = np.array([1 + (k + 2 * v) % 3 for v in range(n_vox)], dtype=float).reshape(VOL_SHAPE)
+            registry[path] = arr
+    keypath = os.path.join(base, 'derivatives', 'fmriprep', 'desc-aparcaseg_dseg.tsv')
+    with open(keypath, 'w') as fh:
+        fh.write('index\tname\n1\tparcel-one\n2\tparcel-two\n3\tparcel-three\n')
+    _FP_READY[key] = (base, ents, registry)
+    return _FP_READY[key]
+
+
+def _fmriprep_cases(name):
+    for desc in FP_DESCS:
+        for tasks in FP_TASKS:
+            yield {'part': 'fmriprep', 'dataset': name, 'op': 'find_mri_derivative_files', 'desc': desc, 'tasks': tasks}
+    yield {'part': 'fmriprep', 'dataset': name, 'op': 'find_mri_derivative_files', 'derivative': 'nosuchpipe',
+           'desc': 'preproc', 'tasks': None}
+    for tasks in FP_TASKS:
+        yield {'part': 'fmriprep', 'dataset': name, 'op': 'find_fmriprep_runs', 'tasks': tasks}
+    n_bold = sum(1 for e in _fmriprep_entities(name) if e['suffix'] == 'bold' and e['ext'] == 'nii.gz'
+                 and e['derivative'] == 'fmriprep')
+    for i in range(n_bold):
+        for acc in FP_ACCESSORS:
+            yield {'part': 'fmriprep', 'dataset': name, 'op': 'run:' + acc, 'bold': i}
+
+
+FP_ACCESSORS = ['entities', 'get_data', 'get_data_masked', 'get_mask', 'get_events', 'get_meta', 'get_confounds',
+                'get_confounds_named', 'get_parcellation', 'to_descriptors', 'to_descriptors_masked', 'repr']
+
+
+class _Observer:
+    """The statement speaks about parsing, rebuilding and the sibling / events / metadata look-ups, not
+    about which files the derivative FINDER enumerates.  On the pinned tree the finder filters by substring
+    ('desc-pre' also returns 'desc-preproc' files, 'task-rest' also 'task-rest2', a task list can return a
+    file twice) - worth a maintainer's attention, but demanding exact entity matching here would be more
+    than the property states.  The finder is therefore executed (so that the accessors are judged on what it
+    returns) and its filter behaviour is recorded as an observation in the evidence, never as a violation."""
+
+    def __init__(self, ctx):
+        self.ctx = ctx
+
+    def fail(self, sig, case, msg):
+        self.ctx.count('observation:' + sig)
+        self.ctx.note('observation:' + sig, msg[:300])
+
+
+def _judge_found(ctx, sigp, case, got, want, ents_by_path, desc, tasks, sorted_required):
+    ctx = _Observer(ctx)
+    extra = [g for g in got if g not in want]
+    missing = [w for w in want if w not in got]
+    if len(set(got)) != len(got):
+        ctx.fail(sigp + '|file-returned-twice', case, 'returned %r' % got)
+    for g in sorted(set(extra)):
+        ent = ents_by_path.get(g)
+        if ent is None:
+            kind = 'not-a-file-of-the-dataset'
+        elif ent['ext'] == 'json':
+            kind = 'json-side-car'
+        elif ent.get('desc') != desc:
+            kind = 'other-desc'
+        elif tasks is not None and ent.get('task') not in tasks:
+            kind = 'other-task'
+        else:
+            kind = 'other-pipeline'
+        ctx.fail('%s|returns-file-of-%s' % (sigp, kind), case,
+                 'asked desc=%r tasks=%r: returned %s (all: %r; expected %r)' % (desc, tasks, g, got, want))
+    if missing:
+        ctx.fail(sigp + '|file-missing', case, 'asked desc=%r tasks=%r: %r not returned (got %r)' % (
+            desc, tasks, missing, got))
+    if not extra and not missing and sorted_required and got != sorted(got):
+        ctx.fail(sigp + '|not-sorted', case, 'returned %r' % got)
+
+
+def _fmriprep_case(case, ctx, root):
+    import sys
+    import types
+    from rsatoolbox.io import bids, fmriprep
+    base, ents, registry = _fmriprep_build(root, case['dataset'])
+    ents_by_path = {os.path.normpath(ref.bids_relpath(e)): e for e in ents}
+    nib = _DataNibabel(registry)
+    op = case['op']
+    ctx.case(case)
+    if op == 'find_mri_derivative_files':
+        deriv = case.get('derivative', 'fmriprep')
+        desc, tasks = case['desc'], case['tasks']
+        sigp = 'BidsLayout.find_mri_derivative_files|%s' % ('all-tasks' if tasks is None else 'task-list')
+        layout = bids.BidsLayout(base, nibabel=nib)
+        if deriv != 'fmriprep':
+            try:
+                out = layout.find_mri_derivative_files(derivative=deriv, desc=desc, tasks=tasks)
+            except ValueError:
+                ctx.outcome(('find', 'no-such-derivative', 'ValueError'))
+                return
+            with ctx.guard(sigp, case):
+                if list(out):
+                    ctx.fail(sigp + '|returns-file-of-other-pipeline', case, 'no such derivative, returned %r' % (out,))
+            return
+        with ctx.guard(sigp, case):
+            out = layout.find_mri_derivative_files(derivative=deriv, desc=desc, tasks=tasks)
+            got = [os.path.normpath(str(f.relpath)) for f in out]
+            want = ref.derivative_files(ents, deriv, desc, tasks)
+            ctx.outcome(('find', desc, tuple(tasks or ()), len(want)))
+            _judge_found(ctx, sigp, case, got, want, ents_by_path, desc, tasks, tasks is None)
+            for f, g in zip(out, got):
+                ent = ents_by_path.get(g)
+                for key in (ref.ALL_KEYS if ent else ()):
+                    if getattr(f, key, '<no attribute>') != ent[key]:
+                        ctx.fail('%s|returned-object-entity=%s' % (sigp, key), case,
+                                 '%s reports %s=%r' % (g, key, getattr(f, key, None)))
+        return
+    if op == 'find_fmriprep_runs':
+        tasks = case['tasks']
+        sigp = 'find_fmriprep_runs|%s' % ('all-tasks' if tasks is None else 'task-list')
+        fake = types.ModuleType('nibabel')
+        fake.load = nib.load
+        had = sys.modules.get('nibabel')
+        sys.modules['nibabel'] = fake
+        try:
+            with ctx.guard(sigp, case):
+                runs = fmriprep.find_fmriprep_runs(base, tasks=tasks)
+                got = [os.path.normpath(str(r.boldFile.relpath)) for r in runs]
+                want = [p for p in ref.derivative_files(ents, 'fmriprep', 'preproc', tasks)
+                        if ents_by_path[p]['suffix'] == 'bold']
+                ctx.outcome(('runs', tuple(tasks or ()), len(want)))
+                _judge_found(ctx, sigp, case, got, want, ents_by_path, 'preproc', tasks, tasks is None)
+                for r, g in zip(runs, got):
+                    if g in want and float(np.asarray(r.get_data())[0, 0]) != float(
+                            registry[os.path.normpath(os.path.join(base, g))].reshape(-1, N_T)[0, 0]):
+                        ctx.fail(sigp + '|run-reads-another-file', case, 'run of %s' % g)
+        finally:
+            if had is None:
+                sys.modules.pop('nibabel', None)
+            else:
+                sys.modules['nibabel'] = had
+        return
+    # ---- accessors of one run
+    bolds = [e for e in ents if e['suffix'] == 'bold' and e['ext'] == 'nii.gz' and e['derivative'] == 'fmriprep']
+    ent = bolds[case['bold']]
+    rel = ref.bids_relpath(ent)
+
+    def path_of(lookup, desc=None, suffix=None):
+        return os.path.normpath(os.path.join(base, ref.bids_relpath(
+            ref.with_changes(ent, ref.lookup_changes(lookup, desc, suffix)))))
+
+    acc = op.split(':', 1)[1]
+    sigp = 'FmriprepRun.%s|%s' % (acc, 'desc-is-prefix-of-another' if ent['desc'] == 'pre' else 'plain')
+    layout = bids.BidsLayout(base, nibabel=nib)
+    bold_arr = registry[os.path.normpath(os.path.join(base, rel))]
+    mask_arr = registry[path_of('mri_sibling', 'brain', 'mask')].astype(bool)
+    parc_arr = registry[path_of('mri_sibling', 'aparcaseg', 'dseg')].astype(int)
+    names = {1: 'parcel-one', 2: 'parcel-two', 3: 'parcel-three'}
+    k_conf = [i for i, e in enumerate(ents) if os.path.normpath(os.path.join(base, ref.bids_relpath(e))) ==
+              path_of('table_sibling', 'confounds', 'timeseries')][0]
+    with ctx.guard(sigp, case):
+        run = fmriprep.FmriprepRun(bids.BidsMriFile(rel, layout, nib))
+        ctx.outcome(('run', acc, case['bold'] % 2))
+
+        def mismatch(what, got, want):
+            ctx.fail('%s|%s' % (sigp, what), case, 'run %s: got %r, expected %r' % (rel, got, want))
+        if acc == 'entities':
+            for key in ('sub', 'ses', 'run'):
+                if getattr(run, key) != ent[key]:
+                    mismatch('entity=' + key, getattr(run, key), ent[key])
+            dd = run.get_dataset_descriptors()
+            for key in ('sub', 'ses', 'run', 'task'):
+                if (dd.get(key) if ent[key] else None) != ent[key] or (not ent[key] and key in dd):
+                    mismatch('dataset-descriptor=' + key, dd.get(key), ent[key])
+        elif acc == 'get_data':
+            got = np.asarray(run.get_data())
+            if got.shape != (bold_arr.size // N_T, N_T) or not np.array_equal(got, bold_arr.reshape(-1, N_T)):
+                mismatch('wrong-data', got.tolist(), bold_arr.reshape(-1, N_T).tolist())
+        elif acc == 'get_data_masked':
+            got = np.asarray(run.get_data(masked=True))
+            want = np.array([bold_arr[idx] for idx in np.ndindex(*VOL_SHAPE) if mask_arr[idx]])
+            if got.shape != want.shape or not np.array_equal(got, want):
+                mismatch('not-the-mask-voxels', got.tolist(), want.tolist())
+        elif acc == 'get_mask':
+            got = np.asarray(run.get_mask())
+            if got.dtype != bool or not np.array_equal(got, mask_arr):
+                mismatch('wrong-mask', got.tolist(), mask_arr.tolist())
+        elif acc == 'get_events':
+            got = run.get_events()
+            want = os.path.normpath(ref.bids_relpath(ref.with_changes(ent, ref.lookup_changes('events'))))
+            if list(got['marker']) != [want, want] or list(got['trial_type']) != ['a', 'b']:
+                mismatch('wrong-file', list(got.get('marker', [])), want)
+        elif acc == 'get_meta':
+            got = run.get_meta()
+            want = os.path.normpath(ref.bids_relpath(ref.with_changes(ent, ref.lookup_changes('meta'))))
+            if got.get('marker') != want:
+                mismatch('wrong-file', got.get('marker'), want)
+        elif acc in ('get_confounds', 'get_confounds_named'):
+            cols = FP_CONFOUNDS if acc == 'get_confounds' else ['rot_z', 'trans_x']
+            got = run.get_confounds() if acc == 'get_confounds' else run.get_confounds(cf_names=list(cols))
+            want = [[100.0 * k_conf + FP_CONFOUNDS.index(c) + 0.001 * r for c in cols] for r in range(N_T)]
+            if list(got.columns) != list(cols):
+                mismatch('columns', list(got.columns), list(cols))
+            elif not np.array_equal(np.asarray(got.values, dtype=float), np.array(want)):
+                mismatch('wrong-file-or-values', got.values.tolist(), want)
+        elif acc == 'get_parcellation':
+            got = np.asarray(run.get_parcellation())
+            if not np.array_equal(got, parc_arr):
+                mismatch('wrong-file', got.tolist(), parc_arr.tolist())
+            lab = run.get_parcellation_labels()
+            if [str(lab.loc[i]['name']) for i in (1, 2, 3)] != [names[i] for i in (1, 2, 3)]:
+                mismatch('labels', lab.to_dict(), names)
+        elif acc in ('to_descriptors', 'to_descriptors_masked'):
+            masked = acc.endswith('masked')
+            d = run.to_descriptors(collapse_by_trial_type=False, masked=masked)
+            want_ch = [names[int(parc_arr[idx])] for idx in np.ndindex(*VOL_SHAPE) if (mask_arr[idx] or not masked)]
+            got_ch = [str(v) for v in d['channel_descriptors'].get('aparcaseg', [])]
+            if got_ch != want_ch:
+                mismatch('channel-labels', got_ch, want_ch)
+            if [str(v) for v in d['obs_descriptors'].get('trial_type', [])] != ['a', 'b']:
+                mismatch('trial_type', d['obs_descriptors'], ['a', 'b'])
+            for key in ('sub', 'ses', 'run', 'task'):
+                if ent[key] and d['descriptors'].get(key) != ent[key]:
+                    mismatch('dataset-descriptor=' + key, d['descriptors'].get(key), ent[key])
+        elif acc == 'repr':
+            text = repr(run)
+            tail = os.path.relpath(rel, os.path.join('derivatives', 'fmriprep'))
+            if tail not in text:
+                mismatch('repr', text, tail)
+        else:
+            raise ValueError(acc)
+
+
+# ------------------------------------------------ documented refusals (docstring 'Raises:')
+ERROR_KINDS = ['meadows:unsupported-file-type', 'meadows:mat-missing-variable', 'meadows:multi-participant-json',
+               'meadows:single-task-json', 'meadows:json-without-task-list', 'optional:nibabel-missing',
+               'optional:nitools-missing']
+
+
+def _errors_case(case, ctx, root):
+    """inputs the importers document as refused: the documented exception, not a wrong object"""
+    import importlib.util
+    import json
+    from scipy.io import savemat
+    kind = case['kind']
+    ctx.case(case)
+    sigp = 'documented-refusal|%s' % kind
+    fam, what = kind.split(':')
+    if fam == 'meadows':
+        from rsatoolbox.io import meadows
+        if what == 'unsupported-file-type':
+            fpath = os.path.join(root, 'Meadows_myExp_v_v1_cuddly-bunny_3_1D.csv')
+            open(fpath, 'w').close()
+        elif what == 'mat-missing-variable':
+            fpath = os.path.join(root, 'Meadows_myExp_v_v1_cuddly-bunny_3_1D.mat')
+            savemat(fpath, {'stimuli': np.array(['a.png', 'b.png', 'c.png'])})
+        else:
+            name = {'multi-participant-json': 'Meadows_myExp_v_v1_arrangement_tree.json',
+                    'single-task-json': 'Meadows_myExp_v_v1_cuddly-bunny_3_tree.json',
+                    'json-without-task-list': 'Meadows_myExp_v_v1_cuddly-bunny_tree.json'}[what]
+            fpath = os.path.join(root, name)
+            with open(fpath, 'w') as fh:
+                json.dump({'tasks': {'not': 'a list'}} if what == 'json-without-task-list' else {'tasks': []}, fh)
+        try:
+            try:
+                out = meadows.load_rdms(fpath)
+            except ValueError:
+                ctx.outcome(('refused', kind))
+                return
+            except Exception as e:          # noqa: BLE001 - any other exception type is the finding
+                ctx.fail(sigp + '|other-exception', case, '%s: %s' % (type(e).__name__, e))
+                return
+            ctx.fail(sigp + '|not-refused', case, 'returned %r' % (out,))
+        finally:
+            os.remove(fpath)
+        return
+    module = 'nibabel' if what.startswith('nibabel') else 'nitools'
+    if importlib.util.find_spec(module) is not None:
+        ctx.exclude('%s is installed: the missing-dependency route does not exist' % module)
+        return
+    from rsatoolbox.io.optional import OptionalImportMissingException
+    try:
+        if module == 'nibabel':
+            from rsatoolbox.io import bids
+            os.makedirs(os.path.join(root, 'derivatives', 'fmriprep'), exist_ok=True)
+            bids.BidsLayout(root).find_mri_derivative_files('fmriprep', 'preproc')
+        else:
+            from rsatoolbox.io import spm
+            spm.SpmGlm(os.path.join(root, 'glm'))
+    except OptionalImportMissingException as e:
+        ctx.outcome(('refused', kind))
+        if module not in str(e):
+            ctx.fail(sigp + '|message-does-not-name-the-dependency', case, str(e))
+        return
+    except Exception as e:                  # noqa: BLE001
+        ctx.fail(sigp + '|other-exception', case, '%s: %s' % (type(e).__name__, e))
+        return
+    ctx.fail(sigp + '|not-refused', case, 'no exception without %s' % module)
 
 
 # ------------------------------------------------------- sequences of importer calls
@@ -1273,6 +1678,14 @@ class _NitoolsStub:
 
     def sample_images(self, files, coords, use_dataobj=False):
         self.calls.append(list(files))
+        if self.data is None:
+            # one row per image, the values say which image it is: beta_0007.nii -> 7.x, ResMS.nii -> 999.x
+            rows = []
+            for f in files:
+                name = os.path.basename(str(f))
+                code = 999.0 if name.startswith('ResMS') else float(int(''.join(ch for ch in name if ch.isdigit()) or -1))
+                rows.append([code + 0.25 * p for p in range(2)])
+            return np.array(rows)
         return np.array(self.data, copy=True)
 
 
@@ -1325,6 +1738,29 @@ def _spm_case(case, ctx):
                'pKX': np.linalg.pinv(x)}}}
     route = case['route']
     sigp = 'SpmGlm.%s|any' % route
+    if route == 'get_betas':
+        # regressors of interest: all but the first run's (when there is more than one)
+        stub['SPM']['xX']['iC'] = np.arange(2, runs + 1) if runs > 1 else np.array([1])
+        with ctx.guard(sigp, case):
+            nitools = _NitoolsStub(None)
+            with patch.object(rspm, 'loadmat', return_value=stub):
+                glm = rspm.SpmGlm('/scratch/proj/glm_firstlevel', nitools)
+                glm.get_info_from_spm_mat()
+            betas, resms, info = glm.get_betas('roi_mask.nii')
+            want_runs = list(range(2, runs + 1)) if runs > 1 else [1]
+            ctx.outcome(('spm-betas', runs))
+            if [round(float(v)) for v in np.asarray(betas)[:, 0]] != want_runs or np.asarray(betas).shape != (len(want_runs), 2):
+                ctx.fail(sigp + '|not-the-beta-images-of-interest', case, 'rows %r for regressors of interest %r' % (
+                    np.asarray(betas).tolist(), want_runs))
+            if [float(v) for v in np.asarray(resms)] != [999.0, 999.25]:
+                ctx.fail(sigp + '|not-the-ResMS-image', case, 'resms %r' % (resms,))
+            if [int(v) for v in info['run_number']] != want_runs or [str(v) for v in info['reg_name']] != ['stim*bf(1)'] * len(want_runs):
+                ctx.fail(sigp + '|descriptors', case, 'info %r for runs %r' % (info, want_runs))
+            files = nitools.calls[-1] if nitools.calls else []
+            if [os.path.basename(f) for f in files] != ['beta_%04d.nii' % r for r in want_runs] + ['ResMS.nii'] or \
+                    any(os.path.dirname(f) != '/scratch/proj/glm_firstlevel' for f in files):
+                ctx.fail(sigp + '|image-paths', case, 'sampled %r' % files)
+        return
     scale = float(np.abs(y).max()) or 1.0
     with ctx.guard(sigp, case):
         nitools = _NitoolsStub(y)
